@@ -201,6 +201,8 @@ type c11env struct {
 	meta    *c11wrap
 	sto     blobserver.Storage
 	ops     []string // Coq hops
+	memoName string  // the case file's definition of the model state after the first memoLen hops
+	memoLen  int
 	human   []string
 	plains  []string // plaintext contents; id = index+1
 	refs    []blob.Ref
@@ -389,6 +391,8 @@ func (e *c11env) fetchClass(id int) int {
 	return 3
 }
 
+var c11memoSeq int
+
 func (e *c11env) checkpoint(what string, fetchIDs []int) {
 	c := e.c
 	meta, blobs, index, err := e.views()
@@ -433,8 +437,21 @@ func (e *c11env) checkpoint(what string, fetchIDs []int) {
 			}
 		}
 	}
-	c.addCase(fmt.Sprintf("CRun [%s] %s %s [%s] %s %s [%s]", strings.Join(e.ops, "; "), qb(!e.loose), qb(e.started), strings.Join(ms, "; "), c11list(blobs), c11list(index), strings.Join(fs, "; ")),
+	// the model replays only what happened since the last untampered checkpoint: the state reached there is a definition
+	// of the case file (evaluated once), so the evaluation of a scenario is linear in its length
+	from := "(Some init)"
+	if e.memoName != "" {
+		from = e.memoName
+	}
+	delta := e.ops[e.memoLen:]
+	c.addCase(fmt.Sprintf("CFrom %s [%s] %s %s [%s] %s %s [%s]", from, strings.Join(delta, "; "), qb(!e.loose), qb(e.started), strings.Join(ms, "; "), c11list(blobs), c11list(index), strings.Join(fs, "; ")),
 		map[string]any{"checkpoint": what, "steps": len(e.ops), "last steps": human}, tampered || strings.Contains(strings.Join(e.ops, " "), "HJobUpload"))
+	if !tampered && len(delta) > 0 {
+		c11memoSeq++
+		name := fmt.Sprintf("c11_state_%d", c11memoSeq)
+		c.preamble = append(c.preamble, fmt.Sprintf("Definition %s : option st := Eval vm_compute in hrun_from %s [%s].", name, from, strings.Join(delta, "; ")))
+		e.memoName, e.memoLen = name, len(e.ops)
+	}
 	c.count("checkpoints", what)
 }
 
